@@ -534,7 +534,8 @@ impl<const N: usize> ZEx<N> {
                     });
                     if let Some((a, t)) = r {
                         if a != (true, true, true, true, true, true) || t != (true, true, true, true, true, true, true) {
-                            self.fail(cls::ZST | cls::RET | cls::IDENT, format!("full buffer of {N} unit elements: push/try_push/pop gave {a:?} {t:?}"));
+                            let views = if a == (true, true, true, true, true, true) && (t.0, t.1, t.2, t.3, t.4, t.5) == (true, true, true, true, true, true) { cls::VIEW | cls::ITER | cls::PANIC_SPEC } else { 0 };
+                            self.fail(cls::ZST | cls::RET | cls::IDENT | views, format!("full buffer of {N} unit elements: push/try_push/pop gave {a:?} {t:?}"));
                         }
                     }
                 }
